@@ -239,6 +239,18 @@ impl RoutingTable {
     }
 }
 
+#[cfg(litep2p_verif)]
+impl RoutingTable {
+    /// Read-only dump `(bucket index, entry)` of all buckets (verification seam).
+    pub fn verif_dump(&self) -> Vec<(usize, KademliaPeer)> {
+        self.buckets
+            .iter()
+            .enumerate()
+            .flat_map(|(i, bucket)| bucket.verif_nodes().iter().cloned().map(move |n| (i, n)))
+            .collect()
+    }
+}
+
 /// An iterator over the bucket indices, in the order determined by the `Distance` of a target from
 /// the `local_key`, such that the entries in the buckets are incrementally further away from the
 /// target, starting with the bucket covering the target.
